@@ -134,7 +134,7 @@ static inline ApplyResult apply_device(Ctx &c, vnacal_t *vcp, int ci, const Sess
 	    }
 	}
 	vnadata_t *out;
-	{ LibCall lc(c); out = vnadata_alloc(sim_error_fn, nullptr); lc.done(); }
+	{ LibCall lc(c); out = vnadata_alloc(sim_error_fn, (void *)(uintptr_t)0x20); lc.done(); }	// own error_arg: its reports are told apart from the vnacal_t's
 	int rc, e = 0;
 	LIB_RETRY(c, faultop, "vnacal_apply", e, rc != 0,
 	    rc = ss.ab ? vnacal_apply(vcp, ci, fv.data(), n, a.ptrs.data(), a.rows, a.cols, b.ptrs.data(), P, P, out)
